@@ -128,6 +128,9 @@ def ints(s):
     return [] if s == '-' else [int(x) for x in s.split(',')]
 
 
+GARBLED = []
+
+
 def parse_probe(out):
     cats, absanc, ifaces, noiface, nodes = {}, {}, {}, {}, []
     for ln in out.splitlines():
@@ -145,7 +148,12 @@ def parse_probe(out):
             noiface[n] = {'code': int(c), 'hook': hook.endswith('1')}
         elif ln.startswith('node\t'):
             f = ln.split('\t')
-            kv = dict(x.split('=', 1) for x in f[2:])
+            try:
+                kv = dict(x.split('=', 1) for x in f[2:])
+                int(kv['cat']); ints(kv['dyn']); ints(kv['fired']); ints(kv['chain']); ints(kv['view1']); ints(kv['view2']); kv['cls']; kv['sym']
+            except (ValueError, KeyError, IndexError):
+                GARBLED.append(f[1] if len(f) > 1 else ln[:80])      # what the object behind that reference said about itself is unreadable
+                continue
             nodes.append({'label': f[1], 'cls': kv['cls'], 'sym': kv['sym'], 'cat': int(kv['cat']), 'dyn': ints(kv['dyn']),
                           'absdyn': ints(kv['absdyn']), 'fired': ints(kv['fired']), 'chain': ints(kv['chain']),
                           'view1': ints(kv['view1']), 'view2': ints(kv['view2']),
@@ -179,10 +187,21 @@ class Observation:
         for v in variants:
             args = ['--variant=%d' % v] + (['--only=' + only] if only else [])
             rc, out, err = C.run_exe(self.probe, args, '')
+            del GARBLED[:]
             cats, absanc, ifaces, noiface, nodes = parse_probe(out)
+            for lab in GARBLED[:3]:
+                self.problems.append(('statement:unreadable-node', 'the node reached as `%s` does not even name its class or category readably: the reference '
+                                      'handed out there does not designate the node (observed through the same accessors as every other node)' % lab))
             for ln in out.splitlines():
                 if ln.startswith('sview\t') and ln not in self.sviews:
                     self.sviews.append(ln)
+                if ln.startswith('deep\t'):
+                    kv = dict(x.split('=') for x in ln.split('\t')[1:])
+                    d = int(kv['depth'])
+                    if (int(kv['nots']), int(kv['literals']), int(kv['others']), int(kv['blind']), int(kv['viewinner'])) != (d, 1, 0, 0, 1):
+                        self.problems.append(('statement:deep-visit', 'a visitor that visits the operand from inside its hook, over `!` nested %d deep: the Not hook was entered '
+                                              '%s times (must be %d), the Literal hook %s times (must be 1), other hooks %s times, view<Not> failed on %s of the visited nodes' % (
+                                                  d, kv['nots'], d, kv['literals'], kv['others'], kv['blind'])))
                 if ln.startswith('Z '):
                     m = re.match(r'Z (.*) early=(-?\d+) now=(-?\d+)$', ln)
                     if m and v == variants[0]:
@@ -438,6 +457,9 @@ def run(tier):
         where = ' (nothing was printed: the probe died before main(), i.e. while a client translation unit read the process-wide constants during static initialisation)' if label == '<static facts>' else ''
         res.violation('crash', 'c06probe stopped (exit %d, variant %d) after observing `%s`%s\n%s' % (rc, v, label, where, err),
                       'crash-after %s\nvariant %d\n' % (label, v))
+    for key, msg in [p for p in o.problems if p[0].startswith('statement:')][:2]:
+        res.violation(key, msg, '%s\n%s\n' % (key, msg))
+    o.problems = [p for p in o.problems if not p[0].startswith('statement:')]
     if not failing and not o.crash:
         for key, msg in o.problems[:MAX_REPORTED]:
             res.violation('correspondence:' + key, msg + '\nno implementation class violates the statement on the nodes observed; the tables the '
